@@ -772,6 +772,17 @@ func main() {
 		f.Close()
 		return
 	}
+	if len(os.Args) >= 2 && os.Args[1] == "lean" {
+		d, _ := strconv.Atoi(os.Args[2])
+		b, _ := strconv.Atoi(os.Args[3])
+		txt, err := prover.ExtractLean(uint32(d), uint32(b))
+		if err != nil {
+			fmt.Fprintln(os.Stderr, "ExtractLean:", err)
+			os.Exit(3)
+		}
+		os.WriteFile(os.Args[4], []byte(txt), 0o644)
+		return
+	}
 	if len(os.Args) >= 2 && os.Args[1] == "engine" {
 		var j job
 		var in solveIn
